@@ -26,6 +26,23 @@ impl FunctionPrototypeTransform {
         member.prop.is_ident() && member.prop.as_ident().unwrap().sym == PROTOTYPE
     }
 
+    /// `X.prototype.method` where X is an identifier or a dotted path of identifiers: reading it has no effects
+    /// (`foo().prototype.method` or `a[k].prototype.method` are not static)
+    pub fn is_static_prototype_path(member: &MemberExpr) -> bool {
+        fn identifiers_only(expr: &Expr) -> bool {
+            match expr {
+                Expr::Ident(_) => true,
+                Expr::Member(member) => member.prop.is_ident() && identifiers_only(&member.obj),
+                _ => false,
+            }
+        }
+        member.prop.is_ident()
+            && member
+                .obj
+                .as_member()
+                .is_some_and(|obj| Self::member_prop_is_prototype(obj) && identifiers_only(&obj.obj))
+    }
+
     /// inspects call expression searching for $class_name.prototype.$method_name.[call|apply]($this_expr, $arguments) and if there is a match
     /// returns a tuple (
     ///     ExprOrSpread -> $this_expr,
